@@ -55,8 +55,14 @@ def main():
     prop = load(args.prop)
     if args.replay:
         doc = json.load(open(args.replay))
-        case = doc['case']
-        r = prop.run_case(case)
+        if 'cases' in doc:
+            # history replay: the cases run in order in this one process
+            r = {'violations': []}
+            for case in doc['cases']:
+                rr = prop.run_case(case)
+                r['violations'].extend(rr['violations'])
+        else:
+            r = prop.run_case(doc['case'])
         known, _ = runner.load_known(prop.ID)
         want = (doc.get('expect') or {}).get('sig')
         rc = 0
